@@ -262,14 +262,29 @@ def rule_identity(ctx):
         t = render(f["body"]).replace(" ", "")
         import sgrep
         pvq = sgrep.params(f)
-        ctx.check(R, "ir::Meta/eq-compares-location-and-file", bool(pvq) and sgrep.has(f["body"], "self.location == __o.location", None, {"__o": pvq[0]}) and sgrep.has(f["body"], "self.file_id == __o.file_id", None, {"__o": pvq[0]}), t, site(IR, f))
+        from astlib import result_expr
+        from pathcond import split_cond
+
+        # the result is the conjunction of exactly these two comparisons
+        re_ = result_expr(f)
+        atoms = split_cond(re_, True) if re_ is not None else []
+        texts = sorted(render(a_[1]).replace(" ", "") for a_ in atoms if a_[0] == "if" and a_[2])
+        o_ = pvq[0] if pvq else "other"
+        want_eq = sorted(["(self.location==%s.location)" % o_, "(self.file_id==%s.file_id)" % o_])
+        alt_eq = sorted(["(%s.location==self.location)" % o_, "(%s.file_id==self.file_id)" % o_])
+        ctx.check(R, "ir::Meta/eq-compares-location-and-file", len(atoms) == 2 and texts in (want_eq, alt_eq), "eq is the conjunction of %s" % texts, site(IR, f))
     h = None
     for q, fn in fns_in_file(IR):
         if fn["name"] == "hash" and "for Meta" in q:
             h = fn
     if h is not None:
-        t = render(h["body"]).replace(" ", "")
-        ctx.check(R, "ir::Meta/hash-consistent-with-eq", "self.location.hash(state)" in t and "self.file_id.hash(state)" in t, t, site(IR, h))
+        from astlib import simplify_body
+
+        hb = simplify_body(h["body"])  # `let Meta { location, .. } = self;` reads as projections of self
+        t = render(hb).replace(" ", "")
+        pvh = sgrep.params(h)
+        hashed = sorted(render(strip(c["recv"])).replace(" ", "") for c in method_calls(hb, "hash") if pvh and render(strip(c["args"][0])) == pvh[0])
+        ctx.check(R, "ir::Meta/hash-consistent-with-eq", hashed == ["self.file_id", "self.location"], "hashes %s" % hashed, site(IR, h))
 
 
 def rule_anchor(ctx):
